@@ -198,6 +198,20 @@ def job_random(res, rng, w, home, job):
         if members1:
             res.nt("%s|%s|%s|%d" % (opts, where, sorted(archives), len(members1)))
         res.sample({"query": q1, "member_rows": [list(x) for x in members1[:3]], "ordinary_rows": len(ordinary1)}, cap=2)
+        # the option belongs to one root: members of archives under the other root must not appear
+        if qi % 3 == 0 and os.path.isdir(os.path.join(root, "d1")) and os.path.isdir(os.path.join(root, "d2")):
+            qr = "path from t/d1 %s, t/d2 into list" % kw
+            rr = q_run(res, w, home, qr)
+            if rr.verdict == "ok" and rr.rc == 0 and not rr.err:
+                mem = [x for x in rr.rows() if x.startswith("[")]
+                want_m = sorted("[t/%s] %s" % (rel, m["name"]) for rel, ms in archives.items() if rel.startswith("d1/") for m in ms)
+                if sorted(mem) != want_m:
+                    res.viol("`%s`: member rows %s, expected only the members of archives below the root that carries the option (%d)" % (
+                        qr, sorted(set(mem) ^ set(want_m))[:3], len(want_m)), {"query": qr})
+                else:
+                    res.count("per_root_option_checked")
+            elif rr.verdict == "ok":
+                res.viol("`%s`: status %s stderr %r" % (qr, rr.rc, rr.err[:120]), {"query": qr})
         # LIMIT counts matching rows, members included (metamorphic against the unlimited query)
         M = len(rows1)
         unl = collections.Counter(x[0] for x in rows1)
